@@ -613,3 +613,21 @@ Definition judge_model (c : case) : verdict := judge_model_with cfgs_allowed c.
 Definition judge_chain (c : case) : verdict :=
   let p := judge_prop c in
   if negb (fst p =? 0) then p else judge_model c.
+
+(** * A concrete, provably injective header hash and a root function, for the Examples and the
+    refutation witnesses (the judge uses the driver's oracle tables instead) *)
+Definition npair (a b : N) : N := a + (a + b) * (a + b).
+Definition toy_hash (h : header) : N :=
+  1 + npair (h_number h) (npair (h_parent h) (npair (h_state h) (npair (h_txroot h) (h_rcroot h)))).
+Definition toy_root (l : list N) : N := fold_right (fun x acc => 1 + npair x acc) 0 l.
+(** seal an entry the way the executor does: roots, parent, number, hash last *)
+Definition toy_entry (sp : spec) (state : N) (txs rcpts : list N) (im : imeta) : entry :=
+  let hd := mkHdr (tlen sp + 1) (cm_hash (spec_meta sp)) state (toy_root txs) (toy_root rcpts) in
+  mkEntry (mkBlk hd (toy_hash hd) txs) rcpts im.
+
+(** the model's own trace of a history *)
+Fixpoint trace_of (cfg : Defects) (full : bool) (U : universe) (ops : list op) (s : cledger) : list (N * obs) :=
+  match ops with
+  | [] => []
+  | o :: r => let '(c, s') := step cfg full o s in (c, observe cfg U s') :: trace_of cfg full U r s'
+  end.
